@@ -39,3 +39,31 @@ let run () =
      done
    with End_of_file -> ());
   Printf.printf "SUMMARY total=%d diverged=%d reported=%d clean=%d\n" !total !bad !reported !clean
+
+(* C03: new_allocator with a refusing operator new and numbered new_handlers, against NewLoop.ll_allocate.
+   input lines: "n <first> <table> = <outcome> calls=<list> oom=<k> ..." *)
+let run_newloop () =
+  let n = ref 0 and bad = ref 0 in
+  (try
+     while true do
+       let line = input_line stdin in
+       match split_ws line with
+       | "n" :: first :: table :: "=" :: outcome :: rest ->
+         incr n;
+         let tbl = Array.of_list (String.split_on_char ',' table) in
+         let beh h = let h = int_of_nat h in
+           if h >= Array.length tbl then HbThrow else
+             (match tbl.(h) with
+              | "u" -> HbUninstall | "f" -> HbFree | "t" | "" -> HbThrow
+              | s when s.[0] = 'i' -> HbInstall (nat_of_int (int_of_string (String.sub s 1 (String.length s - 1))))
+              | _ -> HbThrow) in
+         let first = int_of_string first in
+         let (o, calls) = ll_allocate (nat_of_int 40) beh false (if first >= 0 then Some (nat_of_int first) else None) in
+         let mo = (match o with LPtr -> "ok" | LThrowOom _ -> "oom" | LHang -> "hang") in
+         let mc = if calls = [] then "-" else String.concat "," (List.map (fun x -> string_of_int (int_of_nat x)) calls) in
+         let oc = List.fold_left (fun acc t -> if String.length t > 6 && String.sub t 0 6 = "calls=" then String.sub t 6 (String.length t - 6) else acc) "?" rest in
+         if mo <> outcome || mc <> oc then (incr bad; Printf.printf "DIVERGE model: %s after calling handlers %s :: %s\n" mo mc line)
+       | _ -> ()
+     done
+   with End_of_file -> ());
+  Printf.printf "SUMMARY newloop_cases=%d diverged=%d\n" !n !bad
